@@ -125,6 +125,7 @@ package state
 //@   params self
 //@   pure
 //@   ensures result != nil && result.Round == $blockRound
+//@   ensures forall i in 0..len(result.Txns) :: result.Txns[i] != nil
 
 //@ iface 0chain.net/chaincore/chain/state.StateContextI.EmitEvent
 //@   params self eventType eventTag index data appender
